@@ -31,3 +31,19 @@ Definition show_obs (o : obs) : sobs :=
   | OPanic => SPanic | OCrash => SCrash
   | Words ws => SWords (map (fun p => (fst p, hex (snd p))) ws)
   end.
+
+(* ---- concurrent runs (Model/BroadcastThreads.v) ---- *)
+Require Import V.Model.BroadcastThreads.
+
+Inductive cobs :=
+| CCrash
+| CObs (trace : list event) (tx_done : Z) (rx_results : list sres) (rx_end : rend) (lapped_count : Z)
+       (ws : list (Z * string)).
+
+Definition show_conc (cap : Z) (s : cstate) : cobs :=
+  match r_end (c_rx s) with
+  | RCrashed => CCrash
+  | e => CObs (rev (c_trace s)) (t_done (c_tx s)) (map show_rres (rev (r_out (c_rx s)))) e
+              (match e with RLive => lapped (r_rx (c_rx s)) | _ => -1 end)
+              (map (fun p => (fst p, hex (snd p))) (sparse_words cap (c_mem s)))
+  end.
